@@ -225,6 +225,16 @@ class CInt:
             return wrap(self.ev(e[2]), e[1])
         if k == 'int':
             return e[1]
+        if k == 'float':
+            try:
+                return float(e[1])
+            except (TypeError, ValueError):
+                raise NoEval('floating literal %r' % (e[1],))
+        if k == 'offsetof':
+            # (the front end does not carry which member is named: a rule that knows says so)
+            if ('offsetof',) in self.atoms:
+                return self.atoms[('offsetof',)]
+            raise NoEval('offsetof')
         if k == 'zero':
             return 0
         if k == 'str':
